@@ -7,6 +7,7 @@ package main
 import (
 	"fmt"
 	"math"
+	"math/big"
 	"sort"
 
 	"verif/mc"
@@ -287,6 +288,38 @@ func model(c, p []int, limit float64) (float64, bool, bool) {
 	return float64(sum) / (float64(P) * float64(T)), false, border
 }
 
+// exactTie: every borderline run deviates by EXACTLY limit*unit as rationals, and the float
+// computation unit=T/P, limit*unit, p*unit involves no rounding (all exactly representable).
+func exactTie(c, p []int, limit float64) bool {
+	T, P := 0, 0
+	for i := range c {
+		T += c[i]
+		P += p[i]
+	}
+	unit := new(big.Rat).SetFrac64(int64(T), int64(P))
+	uf := float64(T) / float64(P)
+	if new(big.Rat).SetFloat64(uf).Cmp(unit) != 0 {
+		return false
+	}
+	lim := new(big.Rat).SetFloat64(limit)
+	limUnit := new(big.Rat).Mul(lim, unit)
+	if f, exact := limUnit.Float64(); !exact || f != limit*uf {
+		return false
+	}
+	for i := range c {
+		pu := new(big.Rat).Mul(new(big.Rat).SetInt64(int64(p[i])), unit)
+		if _, exact := pu.Float64(); !exact {
+			return false
+		}
+		dev := new(big.Rat).Sub(new(big.Rat).SetInt64(int64(c[i])), pu)
+		dev.Abs(dev)
+		if dev.Cmp(limUnit) > 0 {
+			return false // strictly beyond: not a tie (cannot happen in the border branch)
+		}
+	}
+	return true
+}
+
 func checkVar(l *mc.Local, c, p []int, limit float64, table string) {
 	var got float64
 	pm, site := mc.Guard(func() { got = oned.PatternMatchVariance(c, p, limit) })
@@ -313,11 +346,22 @@ func checkVar(l *mc.Local, c, p []int, limit float64, table string) {
 		}
 		l.Distinct("nontrivial", fmt.Sprint(table, p, "inf"))
 	case border:
-		// a run deviating by exactly the limit: float rounding may fall either way
-		if !math.IsInf(got, 1) && math.Abs(got-want) > 1e-9 {
-			chk.Violation("C20/PatternMatchVariance/value", fmt.Sprintf("score=%v, model %v (borderline) on %+v", got, want, cs), cs)
+		// a run deviating by exactly the limit is NOT "more than the allowed variance": the score is
+		// finite. Float rounding may fall either way only when the arithmetic is inexact; when the
+		// unit width total/patternLength and limit*unit are exactly representable the tie is exact in
+		// floats as well and the finite value is required.
+		if exactTie(c, p, limit) {
+			if math.IsInf(got, 0) || math.IsNaN(got) || math.Abs(got-want) > 1e-9 {
+				chk.Violation("C20/PatternMatchVariance/exact-tie", fmt.Sprintf("score=%v, model %v: a run deviating by exactly the allowed variance (exactly representable) is not more than it, on %+v", got, want, cs), cs)
+			}
+			l.Count("exact_ties", 1)
+			l.Distinct("nontrivial", fmt.Sprint(table, p, "tie", math.Round(want*1e6)))
+		} else {
+			if !math.IsInf(got, 1) && math.Abs(got-want) > 1e-9 {
+				chk.Violation("C20/PatternMatchVariance/value", fmt.Sprintf("score=%v, model %v (borderline) on %+v", got, want, cs), cs)
+			}
+			l.Count("borderline_inexact", 1)
 		}
-		l.Count("borderline", 1)
 	default:
 		if math.IsInf(got, 0) || math.IsNaN(got) || math.Abs(got-want) > 1e-9 {
 			chk.Violation("C20/PatternMatchVariance/value", fmt.Sprintf("score=%v, model %v on %+v", got, want, cs), cs)
